@@ -249,6 +249,12 @@ def targets(ctx):
         "container_append_depth1": ("Rec", lambda m: m.rec.kids.append(c.bp("Rec")(i32=1)), {"rec": {"kids": [{"i32": 1}]}}, 1),
         "container_map_depth1": ("Rec", lambda m: m.rec.m.__setitem__("k", c.bp("Rec")(i32=1)), {"rec": {"m": [["k", {"i32": 1}]]}}, 1),
         "container_scalar_list_depth1": ("Mixed", lambda m: m.repeats.r_int32.append(5), {"repeats": {"r_int32": [5]}}, 3),
+        # the value that is assigned is the very object a previous READ left in the field (small ints / "" are shared)
+        "read_then_scalar_depth1_default": ("Rec", lambda m: (m.rec.i32, setattr(m.rec, "i32", 0)), {"rec": {}}, 1),
+        "read_then_string_depth1_default": ("Scalars", lambda m: (m.f_leaf.s, setattr(m.f_leaf, "s", "")), {"f_leaf": {}}, 18),
+        "read_then_bool_depth1_default": ("Mixed", lambda m: (m.scalars.f_bool, setattr(m.scalars, "f_bool", False)), {"scalars": {}}, 1),
+        "reassign_same_list_depth1": ("Rec", lambda m: setattr(m.rec, "kids", m.rec.kids), {"rec": {}}, 1),
+        "reassign_same_submessage_depth1": ("Rec", lambda m: setattr(m.rec, "leaf", m.rec.leaf), {"rec": {}}, 1),
         "top_level_container": ("Repeats", lambda m: m.r_string.append("a"), {"r_string": ["a"]}, None),
     }
 
@@ -317,6 +323,81 @@ def targets(ctx):
         return Eval([Failure(cl.split("|")[0], f"combo|{cl}", f"case={case!r} :: {d}") for cl, d in found],
                     nontrivial=len(tracked) >= 2, labels=cm.labels_for(schema, mi, tree))
 
+    # what is emitted, record by record: exactly the fields the value holds (never an implicit-presence default,
+    # never a field twice), also next to a selected oneof member / an optional holding its default
+    from collections import Counter
+
+    from .. import wire
+
+    def expected_counts(mi_, ntree):
+        exp = Counter()
+        for fi in mi_.fields:
+            if fi.name not in ntree:
+                continue
+            v = ntree[fi.name]
+            if fi.card == "repeated":
+                exp[fi.number] = 1 if wire.wire_type_of(fi.type) != wire.LEN and fi.type != "message" else len(v)
+            elif fi.card == "map":
+                exp[fi.number] = len(v)
+            else:
+                exp[fi.number] = 1
+        return exp
+
+    def emission_diffs(mi_, data, ntree, path=""):
+        diffs = []
+        recs = wire.parse_records(data)
+        got = Counter(r.number for r in recs)
+        exp = expected_counts(mi_, ntree)
+        if got != exp:
+            names = {f.number: f.name for f in mi_.fields}
+            extra = sorted(names.get(n, n) for n in got if got[n] > exp.get(n, 0))
+            missing = sorted(names.get(n, n) for n in exp if exp[n] > got.get(n, 0))
+            diffs.append((path or "<top>", extra, missing))
+        for fi in mi_.fields:
+            if fi.card in ("single", "optional") and fi.type == "message" and fi.wkt is None and fi.name in ntree:
+                for r in recs:
+                    if r.number == fi.number and r.wt == wire.LEN:
+                        diffs += emission_diffs(schema.msg(fi.msg), r.payload, ntree[fi.name], path + "." + fi.name)
+                        break
+        return diffs
+
+    emit_adapter = BPAdapter(schema)
+
+    @collecting
+    def emit_clauses(out, msg, tree, route):
+        cls = c.bp(msg)
+        mi = schema.msg(f"ks.{msg}")
+        m = guard("build", emit_adapter.build, cls, mi, tree, route)
+        b = guard("bytes", bytes, m)
+        for path, extra, missing in emission_diffs(mi, b, norm(schema, mi, tree)):
+            if extra:
+                out.append(("emitted_although_not_held", f"at {path}: {extra}; bytes={b.hex()[:200]}"))
+            if missing:
+                out.append(("held_but_not_emitted", f"at {path}: {missing}; bytes={b.hex()[:200]}"))
+
+    def emit_ev(case):
+        msg, tree, route = case["msg"], case["tree"], case["route"]
+        mi = schema.msg(f"ks.{msg}")
+        found = emit_clauses(msg, tree, route)
+        fails = []
+        for clause, detail in found:
+            def fails_one(mi_, single, clause=clause):
+                return any(cl == clause for cl, _ in emit_clauses(mi_.full_name.split(".")[-1], single, route))
+
+            alone = cm.culprits(schema, mi, tree, fails_one)
+            for w in alone:
+                fails.append(Failure(clause, f"emission|{clause}|{w}", f"msg={msg} route={route} tree={tree!r} :: {detail}"))
+        nt = sum(1 for fi in mi.fields if fi.name in tree and (fi.oneof or fi.card == "optional")) >= 1 and len(tree) >= 2
+        return Eval(fails, nontrivial=nt, labels=cm.labels_for(schema, mi, tree) + [f"route:{route}"])
+
+    emit_base = cm.msg_tree_strategy(c, names=["Oneofs"] * 4 + ["Optionals"] * 3 + ["Scalars"] * 2 + ["Mixed"] * 2 + ["Rec", "Wrappers", "Times", "Repeats", "Maps", "Tags"], max_fields=8)
+
+    @st.composite
+    def emit_strat(draw):
+        case = dict(draw(emit_base))
+        case["route"] = draw(st.sampled_from(["kwargs", "setattr"]))
+        return case
+
     combo = cm.msg_tree_strategy(c, names=["Optionals"] * 3 + ["Oneofs"] * 3 + ["Wrappers"] * 2 + ["Scalars", "Rec", "Mixed", "Times"])
 
     return [
@@ -324,4 +405,5 @@ def targets(ctx):
         Target("presence_matrix", cell_ev, cases=cells, exhaustive=True, rule="every corpus field x 3 states x 4 routes"),
         Target("lazy_nested_assignment", lazy_ev, cases=lazy_cases, exhaustive=True, shard_cases=False),
         Target("combinations_from_reference_bytes", combo_ev, strategy=combo, quick=400, thorough=6000),
+        Target("emitted_records_vs_held_fields", emit_ev, strategy=emit_strat(), quick=400, thorough=6000),
     ]
